@@ -27,11 +27,11 @@ TEXT = {
             "a resting point is a state of the simulation, not a duration; a dead worker may take two polls to be noticed, which is why three quiet polls are required"),
     'C06': ('exploration', '7 C06', "Histories first run -> second run -> (1 in 6) third run in a fresh interpreter started with another PYTHONHASHSEED, with independently drawn backends (serial / S1 / simulated fork / simulated spawn) and virtual, ticking, coarse (recorded durations of exactly zero) or real clocks for the first run: every executed cacheable node must be reported cached, the later runs must return equal values without any run() begin for cached nodes, and result_meta must equal the originally recorded start and duration; a third of the histories continue with a bust_cache re-execution and another hit (which must return the new generation); in half of the histories the same task objects go through every in-process step and their result_meta is compared, after every executing step and every hit, with what the storage holds (read by a new Lab); plus real first-run/second-run histories on the real backends with task classes defined in the __main__ script. Values are unique per node, so an entry stored under or loaded from another key cannot pass.",
             "the second and third runs use a different context generation so that a re-execution is visible in the value"),
-    'C08': ('exploration', '7 C08', "Stateful model check: generated histories (<= 10 operations: run, run with bust_cache, runs with failing tasks, uncache, cached_tasks, probe-run of the listed tasks, new Lab object; one Lab object and one set of task objects live across operations) over a generated universe of <= 7 nodes (dependency chains up to depth 3) including cache=None types and a type whose result is None, on LocalStorage, FsspecStorage over fsspec's LocalFileSystem and MemoryFileSystem, and storage=None; after every operation is_cached of every node, the cached_tasks listing, executed sets and returned values are compared with a plain reference dictionary and planner; look-alikes of cached tasks (same parameters, another class of a nested task or the same-named class of another module) must not be reported cached.",
+    'C08': ('exploration', '7 C08', "Stateful model check: generated histories (<= 10 operations: run (through run_tasks or run_task), run with bust_cache, runs with failing tasks, uncache, cached_tasks, probe-run of the listed tasks, new Lab object; one Lab object and one set of task objects live across operations) over a generated universe of <= 7 nodes (dependency chains up to depth 3) including cache=None types and a type whose result is None, on LocalStorage, FsspecStorage over fsspec's LocalFileSystem and MemoryFileSystem, and storage=None; after every operation is_cached of every node, the cached_tasks listing, executed sets and returned values are compared with a plain reference dictionary and planner; look-alikes of cached tasks (same parameters, another class of a nested task or the same-named class of another module) must not be reported cached.",
             "equality is on public observations (is_cached, cached_tasks, returned values, execution records), not on directory listings"),
     'C09': ('exploration', '7 C09', "The C08 history machine with universes drawn from the supported parameter grammar (empty / unicode / JSON-special strings, big and negative ints, +-inf floats, None, enum members, nested tuples / lists / string-keyed dicts, nested tasks, enums with an int / str mix-in), a type whose name contains the key separator, a nested cache class, a prefix-named pair of task types, a same-named type in a second module and two cache formats in one storage: cached_tasks (also with a type named twice, also for tasks whose parameters are == but different values: 1 / True / 1.0) must return each cached task exactly once, equal to the original value by value and type by type, with the same cache_key and the stored result_meta, nothing of other types, and running the returned tasks must load the stored values without executing.",
             "NaN parameters are excluded (a task holding NaN is not equal to a rebuilt copy of itself under any implementation)"),
-    'C10': ('exploration', '7 C10', "Any subset of nodes raises or dies (worker killed before its result is queued); continue_on_failure both ways; in a quarter of the runs the task objects have been through an earlier, all-successful run_tasks call; oracle = reference planner with transitive failure: returned set, values, cached entries, exception type and cause, nothing started after the raise.",
+    'C10': ('exploration', '7 C10', "Any subset of nodes raises or dies (worker killed before its result is queued); continue_on_failure both ways; in a quarter of the runs the task objects have been through an earlier, all-successful run_tasks call, in a fifth the Lab object has been through an interrupted one; a quarter run with the task monitor (psutil stood in for simulated processes); oracle = reference planner with transitive failure: returned set, values, cached entries, exception type and cause, nothing started after the raise.",
             "death points inside the save are excluded here (C13's subject)"),
     'C11': ('exploration', '7 C11', "Liveness as bounded progress: S1 flags wait() with nothing in flight (spin) and caps wait() calls; S2 requires run_tasks to finish within 10 polling rounds of the last worker event and aborts on deadlock / 20 000 scheduler steps / 600 virtual seconds; random kills, kills after the result was queued, kills in the middle of the transfer of a result larger than a pipe buffer (queues made by a context are modelled as pipes), task processes that fork a helper which outlives them (Process.sentinel is a real descriptor), max_workers=1, progress displays on and off.",
             "virtual-time assumption: coordinator CPU steps are instantaneous relative to the 0.5 s poll"),
@@ -39,7 +39,7 @@ TEXT = {
             "single faults only; injection points are those of the reference execution (a run that does not reach its point is a harness error)"),
     'C13': ('fault_enumeration', '7 C13', "Kill-point enumeration in the simulated process backends: the worker is killed (frozen for ever, no finally, no with-exit) at every yield point of its save phase - storage calls, write/flush/close boundaries, line boundaries of the save path, a split inside writes larger than a page - each with user-space buffers lost and flushed first; first save and overwrite; a recursive delete inside the save is file-by-file; afterwards a new Lab must either not report the task or load a complete old/new value. Exhaustive over the kill points of the reference executions; plus a real-OS probe that SIGKILLs a real forked worker at the k-th file operation of its save.",
             "process-kill semantics only (OS page cache survives); interleavings inside one storage operation (e.g. a half-finished rmtree) are not modelled"),
-    'C14': ('fault_enumeration', '7 C14', "Interrupt instants are the check points at which CPython 3.12 can raise KeyboardInterrupt in the calling thread's Python code - entry of a labtech function, loop back-edge, return from a C call made by labtech code, call of a non-labtech Python function - not arbitrary line starts (a `try:` line, for one, is a NOP that no handler covers and at which nothing can be raised). Serial backend: one run per check point executed inside labtech during run_tasks (exhaustive for two fixed workloads, ~5 700 instants) plus sampled interrupt pairs; process backends (simulated fork/spawn): every main-thread check point of fixed workloads and schedules (single interrupt, enumerated) plus a seeded search over DAGs, schedules and one or two interrupt instants, delivered at main-thread check points, inside a manager-proxy call of the main thread (request sent, reply not yet read: the reply stays unread on that thread's connection to that manager and later calls read the reply before theirs; enumerated for the fixed workloads with and without the task monitor) or while the main thread is blocked in the helper thread's join, to the whole foreground group according to each process's recorded SIGINT disposition and signal mask (a blocked SIGINT stays pending, an ignored one is discarded; children inherit the mask under both start methods; the first spawn of an interpreter starts multiprocessing's resource tracker, which leaves SIGINT unblocked in the caller). Oracle: KeyboardInterrupt and nothing else, no process/task start after the interrupt, executing workers finish and their results are cached (single) or are dead without a further worker step (double; a task process that handles SIGTERM is not ended by terminate()), every entry reported cached afterwards loads a correct value; plus real killpg(SIGINT) on real fork and spawn runs: single and double at a resting point (all workers inside run()), and single at the instant the first task process exists (workers still starting up).",
+    'C14': ('fault_enumeration', '7 C14', "Interrupt instants are the check points at which CPython 3.12 can raise KeyboardInterrupt in the calling thread's Python code - entry of a labtech function, loop back-edge, return from a C call made by labtech code, call of a non-labtech Python function - not arbitrary line starts (a `try:` line, for one, is a NOP that no handler covers and at which nothing can be raised). Serial backend: one run per check point executed inside labtech during run_tasks (exhaustive for two fixed workloads, ~5 700 instants) plus sampled interrupt pairs; process backends (simulated fork/spawn): every main-thread check point of fixed workloads and schedules (single interrupt, enumerated) plus a seeded search over DAGs (some tasks fail), schedules and one or two interrupt instants, delivered at main-thread check points, inside a manager-proxy call of the main thread (request sent, reply not yet read: the reply stays unread on that thread's connection to that manager and later calls read the reply before theirs; enumerated for the fixed workloads with and without the task monitor) or while the main thread is blocked in the helper thread's join, to the whole foreground group according to each process's recorded SIGINT disposition and signal mask (a blocked SIGINT stays pending, an ignored one is discarded; children inherit the mask under both start methods; the first spawn of an interpreter starts multiprocessing's resource tracker, which leaves SIGINT unblocked in the caller). Oracle: KeyboardInterrupt and nothing else, no process/task start after the interrupt, executing workers finish and their results are cached (single) or are dead without a further worker step (double; a task process that handles SIGTERM is not ended by terminate()), every entry reported cached afterwards loads a correct value; plus real killpg(SIGINT) on real fork and spawn runs: single and double at a resting point (all workers inside run()), and single at the instant the first task process exists (workers still starting up).",
             "interrupt instants are the signal check points of CPython 3.12 as seen from labtech's own code, blocked seam operations and the send/receive gap of manager proxy calls; check points inside the standard library are attributed to the labtech call that entered it"),
     'C16': ('exploration', '7 C16', "At the process-creation seam every worker of the fork/spawn backend must be requested from the fork/spawn context; context seen inside run() equals filter_context(lab.context); storage is byte-identical between runs differing only in context; (also for results that contain task objects); workloads contain failing tasks and the caller's process name after the call must be what it was before (in-process backends); plus a real-OS probe (pid, ppid, module global mutated by the parent) on the three real backends, alone and after another process backend was used in the same interpreter.",
             "the real-OS half has no schedule dependence and is a real-execution probe, declared as such"),
